@@ -60,7 +60,7 @@ def collect_context(spec, tr, Q, status, cut):
     """Everything oracles may need from the live objects, copied out (so oracles are pure)."""
     t_cut = cut['t'] if cut else None
     final_ok = (status == 'ok') and cut is None
-    cx = dict(spec=spec, status=status, t_cut=t_cut, final_ok=final_ok, features=gen.features(spec),
+    cx = dict(spec=spec, status=status, t_cut=t_cut, final_ok=final_ok, features=gen.features(spec), crash=None, final=None,
               records=[], where={}, inprogress=[], utilisation=[], overtime=[], history=None,
               state_probabilities=None, sched_interrupted={})
     if Q is None:
@@ -93,6 +93,8 @@ def collect_context(spec, tr, Q, status, cut):
                 cx['utilisation'].append((nd.id_number, getattr(nd, 'server_utilisation', None), nd.c))
                 cx['overtime'].append((nd.id_number, list(nd.overtime)))
             cx['history'] = [list(x) for x in Q.statetracker.history]
+            cx['final'] = dict(snap=mon.snapshot(Q, Q.current_time, None, 'final'), clock=Q.current_time,
+                               min_next=min(nd.next_event_date for nd in Q.nodes[:-1]))
             cx['state_probabilities'] = lambda w: Q.statetracker.state_probabilities(observation_period=w)
     except Exception as e:  # a corrupted final state must not kill the harness
         cx['collect_error'] = repr(e)
@@ -117,6 +119,7 @@ def evaluate(spec, props, cap=20000, wall=30):
     if cut:
         apply_cut(tr, cut)
     cx = collect_context(spec, tr, Q, status, cut)
+    cx['crash'] = crash
     old = signal.signal(signal.SIGALRM, _alarm)
     oracle_errors = []
     if cx.get('collect_error') and status == 'ok' and not cut:
